@@ -2,18 +2,28 @@
 
 package vgirpc
 
+import "fmt"
+
 // Verification hooks (build tag "verif") for the application-protocol-version
 // gate. Add-only; nothing here is compiled into normal builds.
 
-// VerifC10ParseSemver runs the canonical-semver parser.
-func VerifC10ParseSemver(value string) (major, minor, patch int, err error) {
-	return parseSemver(value)
+// VerifC10ParseSemver runs the canonical-semver parser; components are
+// rendered in decimal (whatever numeric type the parser uses).
+func VerifC10ParseSemver(value string) (major, minor, patch string, err error) {
+	a, b, c, err := parseSemver(value)
+	if err != nil {
+		return "", "", "", err
+	}
+	return fmt.Sprint(a), fmt.Sprint(b), fmt.Sprint(c), nil
 }
 
-// VerifC10Declared reports whether a protocol version is declared and the
-// parsed components the gate compares against.
-func (s *Server) VerifC10Declared() (set bool, text string, parts [3]int) {
-	return s.protocolVersionSet, s.protocolVersion, s.protocolVersionParts
+// VerifC10Declared reports whether a protocol version is declared, its text,
+// and the parsed components the gate compares against (decimal).
+func (s *Server) VerifC10Declared() (set bool, text string, parts [3]string) {
+	for i := range s.protocolVersionParts {
+		parts[i] = fmt.Sprint(s.protocolVersionParts[i])
+	}
+	return s.protocolVersionSet, s.protocolVersion, parts
 }
 
 // VerifC10Check runs the dispatch-boundary version check exactly as the three
